@@ -297,7 +297,7 @@ def _roll_compare(o, want):
 
 def _roll_case(call, via, clause_detail=None):
     c = {'op': 'df_roll_off', 'via': via, 'n': call['n'], 'with_data': bool(call['data']['cols']), 'last_on_cutoff': x_roll.last_on_cutoff(call),
-         'ifno': call['ifno'], 'call': call}
+         'later_ends_earlier': x_roll.later_ends_earlier(call), 'ifno': call['ifno'], 'call': call}
     return c
 
 
@@ -372,7 +372,7 @@ def rand_roll_world(rng):
     K = rng.choice([1, 2, 3, 4, 5, 6])
     T = 36
     days, rolls = [], []
-    start, prev_u = rng.randint(1, 4), 0
+    start, prev_u, prev_roll = rng.randint(1, 4), 0, 0
     holes = rng.random() < 0.5
     for i in range(K):
         r = rng.random()
@@ -387,8 +387,9 @@ def rand_roll_world(rng):
             ds = [d for d in ds if d == end or rng.random() < 0.8]
         days.append(ds)
         if rng.random() < 0.35:
-            ro = rng.randint(max(prev_u, ds[0]), end + 2)
+            ro = rng.randint(max(prev_u, ds[0], prev_roll), max(end + 2, prev_roll))
             rolls.append(ro)
+            prev_roll = ro
             prev_u = min(ro, end)
         else:
             rolls.append(0)
@@ -411,9 +412,10 @@ def roll_call_of(world, rng, now, n, data, rolls):
         cutoff = max(cutoff, data['rows'][0])           # the kept part of the data is never empty
     elif rng.random() < 0.15:
         cutoff = 0                                      # cutoff = None
+    check = rng.choice([1, 1, 1, 0])
     return {'L': L, 'rolls': rolls, 'now': now, 'expiry': now - rng.choice([0, 1, 3, 3, 6]), 'cutoff': cutoff, 'n': n, 'data': data,
-            'tr': rng.choice([0, 0, 1]), 'mark': rng.choice([0, 0, 1]), 'ifno': rng.choice(['no', 'no', 'no', 'raise', 'call']),
-            'check': rng.choice([1, 1, 1, 0])}
+            'tr': rng.choice([0, 0, 1]), 'mark': rng.choice([0, 0, 1]) if check else 0, 'ifno': rng.choice(['no', 'no', 'no', 'raise', 'call']),
+            'check': check}
 
 
 def _roll_sessions_observe(chunk):
@@ -516,7 +518,8 @@ def run_roll(ctx, q):
     roll_s2c_calls(ctx, ctx.generate('MC_RollCall', 'MC_RollCall_gen.cfg'))
     if not q:
         roll_s2c_calls(ctx, ctx.generate('MC_RollCall', 'MC_RollCall_gen_empty.cfg'))
-    roll_s2c_sessions(ctx, ctx.generate('MC_Roll', 'MC_Roll_gen3.cfg' if q else 'MC_Roll_gen4.cfg'))
+    hists = ctx.generate('MC_Roll', 'MC_Roll_gen3.cfg' if q else 'MC_Roll_gen4.cfg')
+    roll_s2c_sessions(ctx, ctx.rng.sample(hists, 600) if q and len(hists) > 600 else hists)
     roll_s2c_sessions(ctx, _simulate(ctx, 'MC_Roll', 'MC_Roll_gen.cfg', 25 if q else 1500, 7, ctx.seed + 1))
     roll_c2s(ctx, 500 if q else 8000)
 
@@ -527,3 +530,18 @@ ASSUMPTIONS = [
         'df_roll_off: the clock of the code is the wall clock (dt(0)); grid day k of a call with clock `now` is rendered as today + (k - now) days - a run across midnight between rendering and the call would be off by one',
         'df_roll_off: chains are chronological (roll-off points do not go backwards), a cutoff is given whenever data is given and the kept part of the data is not empty; loaders return pd.Series',
         'small-scope: worlds of <= 4 contracts over <= 19 days in TLC, <= 6 contracts over 36 days in C2S']
+
+
+def replay(ctx, body):
+    """./check X03 --replay <file>: the recorded case once more, judged by the trace specification"""
+    c = body['case']
+    if c['op'] == 'interpolate':
+        case = {'a': c['a'], 'y': c['y'], 'x': c['x'], 'fill': c['fill']}
+        n = _nknots(case)
+        o = x_curve.observe(case, c.get('spelling', 0), list(range(n))[::-1] if c.get('unsorted') else None)
+        bad = ctx.validate('Trace_Curve', [o])
+    else:
+        o, _ = x_roll.observe({f: v for f, v in c['call'].items() if f != 'live'}, sp=0)
+        bad = ctx.validate('Trace_Roll', [o])
+    print('replay:', 'REJECTED %s' % bad if bad else 'accepted', json.dumps(o['out'])[:600])
+    return 1 if bad else 0
